@@ -120,6 +120,8 @@ var (
 	reBbpField = regexp.MustCompile(`\bbbp\.[A-Za-z_][A-Za-z0-9_]*`)
 	reNumVar   = regexp.MustCompile(`\b(ln|i|k|v|elem)\d+\b`)
 	rePkgQual  = regexp.MustCompile(`\b[a-z][a-z0-9_]*\.`)
+	rePrimType = regexp.MustCompile(`\b(bool|byte|uint8|uint16|int16|uint32|int32|uint64|int64|float32|float64|string|time\.Time)\b|\[16\]byte`)
+	reMakeType = regexp.MustCompile("make\\((\\[\\]|map\\[[^\\]]*\\])+T")
 )
 
 // codecNormalize maps a violation inside generated code to a site signature
@@ -180,6 +182,10 @@ func codecNormalize(kinds map[string]map[string]string) func(j *Job, pkg string,
 		}
 		if inGenerated {
 			stmt = reBbpField.ReplaceAllString(stmt, "bbp.F")
+			if strings.Contains(stmt, "make(") {
+				stmt = rePrimType.ReplaceAllString(stmt, "T")
+				stmt = reMakeType.ReplaceAllString(stmt, "make([]T")
+			}
 			stmt = reNumVar.ReplaceAllString(stmt, "${1}N")
 		}
 		if strings.HasPrefix(fn, "VH_") || strings.Contains(fn, ".VH_") || strings.Contains(fn, "vEncode") {
@@ -200,7 +206,7 @@ func codecNormalize(kinds map[string]map[string]string) func(j *Job, pkg string,
 }
 
 // codecJobs groups corpus entries into engine jobs.
-func codecJobs(ctx *Ctx, mod string, entries []*corpusEntry, harnesses []string, opt JobOptions, perJob int, p *Prepared) {
+func codecJobs(ctx *Ctx, mod string, entries []*corpusEntry, harnesses []string, harnessesFor func(*corpus.Pkg, string) []string, opt JobOptions, perJob int, p *Prepared) {
 	kinds := map[string]map[string]string{}
 	var group []*corpusEntry
 	flush := func() {
@@ -210,7 +216,11 @@ func codecJobs(ctx *Ctx, mod string, entries []*corpusEntry, harnesses []string,
 		j := &Job{Name: fmt.Sprintf("%s..%s", group[0].Name, group[len(group)-1].Name), Dir: mod, Opt: opt, Meta: map[string]string{}}
 		for _, e := range group {
 			j.Patterns = append(j.Patterns, "./"+e.Name)
-			for _, h := range harnesses {
+			hs := harnesses
+			if harnessesFor != nil {
+				hs = harnessesFor(e.Pkg, ctx.Tier)
+			}
+			for _, h := range hs {
 				j.Funcs = append(j.Funcs, "corp/"+e.Name+"."+h)
 			}
 		}
